@@ -95,8 +95,8 @@ type Verdict struct {
 	PlanningOK bool
 	PlanError  string
 
-	DataEqual bool
-	OrderOnly bool // data differ only in member order
+	DataEqual bool // equal as JSON values (object member order ignored)
+	OrderOnly bool // equal as values but the member order differs from CollectFields order (informational)
 	Diff      string
 
 	GatewayErrors bool
@@ -188,10 +188,12 @@ func Check(lab *Lab, opText, opName string, variables []byte, ro *RunOptions) *V
 	if gw == nil {
 		gw = JN()
 	}
-	v.DataEqual = gw.Equal(ref.Data)
+	// "the same JSON value": object member order is not part of a JSON value, so data_equal
+	// compares unordered; a pure member-order difference is kept as an informational flag
+	v.DataEqual = gw.EqualUnordered(ref.Data)
+	v.OrderOnly = v.DataEqual && !gw.Equal(ref.Data)
 	if !v.DataEqual {
-		v.OrderOnly = gw.EqualUnordered(ref.Data)
-		v.Diff = gw.FirstDiff(ref.Data, "data")
+		v.Diff = gw.FirstDiffUnordered(ref.Data, "data")
 	}
 	for _, q := range res.Requests {
 		g := lab.Config.Subgraph(q.Subgraph)
